@@ -20,6 +20,14 @@ func vhSameSet(a, b tmconsensus.ValidatorSet) bool {
 	return ok
 }
 
+func vhSumPow(vs tmconsensus.ValidatorSet) uint64 {
+	var sum uint64
+	for _, v := range vs.Validators {
+		sum += v.Power
+	}
+	return sum
+}
+
 // VH_C07_CommitAdoptsNextSet: two heights are committed through the real kernel handlers;
 // the application changes keys and powers at every height (three pairwise different sets with
 // symbolic powers). After each commit the voting and next-round views use exactly the committed
@@ -28,7 +36,11 @@ func vhSameSet(a, b tmconsensus.ValidatorSet) bool {
 func VH_C07_CommitAdoptsNextSet() {
 	verifrt.Summarize("ByzantineThresholds")
 	n := 2
+	if verifrt.Thorough() {
+		n = 3
+	}
 	e := vhNewEnv(n, vkit.Powers("p0", n), 1)
+	all := 1<<uint(n) - 1
 	v0 := e.vs
 	v1 := vkit.ValSet(vkit.OkKeys(n+1)[1:], vkit.Powers("p1", n)) // keys 1,2
 	if verifrt.Choose("next-set-keeps-the-keys", 2) == 1 {
@@ -52,29 +64,29 @@ func VH_C07_CommitAdoptsNextSet() {
 		e.k.addProposedHeader(e.ctx, e.s, a)
 	}
 	e.k.addPrecommit(e.ctx, e.s, AddPrecommitRequest{H: 1, R: 0,
-		PrecommitUpdates: map[string]VoteUpdate{"A": {Proof: e.voteProof(true, 1, 0, "A", 3)}}, Response: make(chan AddVoteResult, 1)})
+		PrecommitUpdates: map[string]VoteUpdate{"A": {Proof: e.voteProof(true, 1, 0, "A", all)}}, Response: make(chan AddVoteResult, 1)})
 	verifrt.Assert(e.s.Committing.Height == 1 && string(e.s.CommittingHeader.Hash) == "A", "C07:setup-height-1-committed")
 	verifrt.Reach("height-1-committed")
 	verifrt.Assert(vhSameSet(e.s.Voting.ValidatorSet, v1), "C07:voting-set-is-committed-headers-next-set")
 	verifrt.Assert(vhSameSet(e.s.NextRound.ValidatorSet, v1), "C07:next-round-set-is-committed-headers-next-set")
 	verifrt.Assert(vhSameSet(e.s.Committing.ValidatorSet, v0), "C07:committing-view-keeps-its-set")
-	verifrt.Assert(e.s.Voting.VoteSummary.AvailablePower == v1.Validators[0].Power+v1.Validators[1].Power, "C07:available-power-is-the-new-sets")
-	verifrt.Assert(e.s.NextRound.VoteSummary.AvailablePower == v1.Validators[0].Power+v1.Validators[1].Power, "C07:next-round-available-power-is-the-new-sets")
+	verifrt.Assert(e.s.Voting.VoteSummary.AvailablePower == vhSumPow(v1), "C07:available-power-is-the-new-sets")
+	verifrt.Assert(e.s.NextRound.VoteSummary.AvailablePower == vhSumPow(v1), "C07:next-round-available-power-is-the-new-sets")
 
 	// height 2 is voted by v1: its validators sign, and the header prescribes v2
 	e2 := *e
-	e2.keys, e2.vs, e2.pows = v1.PubKeys, v1, []uint64{v1.Validators[0].Power, v1.Validators[1].Power}
+	e2.keys, e2.vs, e2.pows = v1.PubKeys, v1, tmconsensus.ValidatorsToVotePowers(v1.Validators)
 	c := e2.linkedProposed("C", 2, 0, 0)
 	c.Header.NextValidatorSet = v2
 	e.k.addProposedHeader(e.ctx, e.s, c)
 	e.k.addPrecommit(e.ctx, e.s, AddPrecommitRequest{H: 2, R: 0,
-		PrecommitUpdates: map[string]VoteUpdate{"C": {Proof: e2.voteProof(true, 2, 0, "C", 3)}}, Response: make(chan AddVoteResult, 1)})
+		PrecommitUpdates: map[string]VoteUpdate{"C": {Proof: e2.voteProof(true, 2, 0, "C", all)}}, Response: make(chan AddVoteResult, 1)})
 	verifrt.Assert(e.s.Committing.Height == 2 && string(e.s.CommittingHeader.Hash) == "C", "C07:setup-height-2-committed")
 	verifrt.Reach("height-2-committed")
 	verifrt.Assert(vhSameSet(e.s.Voting.ValidatorSet, v2), "C07:voting-set-is-committed-headers-next-set")
 	verifrt.Assert(vhSameSet(e.s.NextRound.ValidatorSet, v2), "C07:next-round-set-is-committed-headers-next-set")
 	verifrt.Assert(vhSameSet(e.s.Committing.ValidatorSet, v1), "C07:committing-view-keeps-its-set")
-	p2sum := v2.Validators[0].Power + v2.Validators[1].Power
+	p2sum := vhSumPow(v2)
 	verifrt.Assert(e.s.Voting.VoteSummary.AvailablePower == p2sum, "C07:available-power-is-the-new-sets")
 	verifrt.Assert(e.s.NextRound.VoteSummary.AvailablePower == p2sum, "C07:next-round-available-power-is-the-new-sets")
 
@@ -82,7 +94,7 @@ func VH_C07_CommitAdoptsNextSet() {
 	e3 := *e
 	e3.keys, e3.vs = v2.PubKeys, v2
 	e.k.addPrecommit(e.ctx, e.s, AddPrecommitRequest{H: 3, R: 0,
-		PrecommitUpdates: map[string]VoteUpdate{"": {Proof: e3.voteProof(true, 3, 0, "", 3)}}, Response: make(chan AddVoteResult, 1)})
+		PrecommitUpdates: map[string]VoteUpdate{"": {Proof: e3.voteProof(true, 3, 0, "", all)}}, Response: make(chan AddVoteResult, 1)})
 	verifrt.Assert(e.s.Voting.Height == 3 && e.s.Voting.Round == 1, "C07:setup-nil-round-advanced")
 	verifrt.Reach("round-advanced")
 	verifrt.Assert(vhSameSet(e.s.Voting.ValidatorSet, v2), "C07:set-survives-round-advance")
